@@ -69,6 +69,13 @@ instance (n : Nat) (b : Option Int) : Decidable (InDom n b) := by
 
 namespace Tbl
 
+/-- decidable equality of results, so that closed examples can be checked by `decide` -/
+instance decEqExcept {ε α} [DecidableEq ε] [DecidableEq α] : DecidableEq (Except ε α)
+  | .ok a, .ok b => if h : a = b then isTrue (by rw [h]) else isFalse (fun h' => h (by cases h'; rfl))
+  | .error a, .error b => if h : a = b then isTrue (by rw [h]) else isFalse (fun h' => h (by cases h'; rfl))
+  | .ok _, .error _ => isFalse (fun h => by cases h)
+  | .error _, .ok _ => isFalse (fun h => by cases h)
+
 /-! ## 2. Tables and `get` -/
 
 /-- one cell.  `flt` carries a float by its shortest `repr`; the model only ever moves cells. -/
@@ -119,9 +126,23 @@ def lookupCol : List (String × Enc) → String → Option (Nat × Enc)
   | [], _ => none
   | (c, e) :: cs, f => if c = f then some (0, e) else (lookupCol cs f).map fun p => (p.1 + 1, p.2)
 
+/-- stable insertion of one `(name, code)` item into a list sorted by code -/
+def insertCode (x : String × Int) : List (String × Int) → List (String × Int)
+  | [] => [x]
+  | y :: ys => if x.2 ≤ y.2 then x :: y :: ys else y :: insertCode x ys
+
+/-- the enum header sorted by code (structural insertion sort, so that it reduces in the kernel) -/
+def sortByCode : List (String × Int) → List (String × Int)
+  | [] => []
+  | x :: xs => insertCode x (sortByCode xs)
+
 /-- `sorted(dt, key=dt.__getitem__)`: the enum's names in increasing order of their codes -/
-def categoriesOf (dict : List (String × Int)) : List String :=
-  (dict.mergeSort fun a b => decide (a.2 ≤ b.2)).map (·.1)
+def categoriesOf (dict : List (String × Int)) : List String := (sortByCode dict).map (·.1)
+
+/-- the enum header `write_bins` stores: `dict(zip(chromnames, range(n_chroms)))`, from code `k` on -/
+def idmapFrom (k : Int) : List String → List (String × Int)
+  | [] => []
+  | s :: rest => (s, k) :: idmapFrom (k + 1) rest
 
 /-- guard of `pd.Categorical.from_codes(codes, cats)`: every code is `-1` or in `[0, len(cats))` -/
 def codeOk (cats : List String) : Val → Bool
